@@ -18,7 +18,7 @@ func init() { core.Register(c05{}) }
 func (c05) ID() string    { return "C05" }
 func (c05) Level() string { return "exploration" }
 func (c05) Rule() string {
-	return "seeded graphs (DAGs, diamonds, cycles with acyclic tails; by-name, by-type, qualified-slice edges) over palette types with {Init only, AfterPropertiesSet only, both, neither} x {lazy, eager} x {runner, closer, plain}, configuration-bound fields (value / prefix tags supplied per instance), 0..3 additional logging user post-processors of all ordering classes, under permuted orders. One append-only event log per start (logical clock) is written by the components' own AfterPropertiesSet/Init methods, by an observing post-processor (before/after + snapshot of all slots and config fields) and by the logging post-processors; an offline checker decides: per created component exactly one each of before < aps < init < after (for the callbacks it has), all before-callbacks before aps/init and all after-callbacks after; the snapshot taken in before-initialization equals the state at the end of Run (nothing is set later); when Init/AfterPropertiesSet of X runs, every observed dependency Y from which X is not reachable has completed all its callbacks; a LazyInit component has events only if a created component holds it (App holds runners/closers), and never twice. non-trivial = graph with a diamond, or a cycle with a tail, or a needed lazy component; distinct = canonical scenario signature; retry family: a component whose Init / AfterPropertiesSet fails once is requested by a swallowed lookup and again later - every attempt runs the complete callback sequence; a quarter of the starts pre-wire by-name points by hand; mix-in family (points of a package-private embedded struct); unsettable family (a point only the holder itself could satisfy, followed by satisfiable ones) and supplied family (component supplied before instantiation); a post-processor component with points and Init; several lazy candidates of one pointer point; lazy post-processor components held by created components pass the other processors' callbacks; a holder taking its dependency through a tagged embedded interface; lazyPrimary (a lazy Primary among lazy candidates); a factory-aware eager component in the main family; panickingInit family (an Init that panics half way is no completed initialisation); lazyMisfit (an optional point naming a lazy component of an unfit type leaves it untouched); firstProcessor family (priority-ordered post-processor components created before any processor is active are initialised once)"
+	return "seeded graphs (DAGs, diamonds, cycles with acyclic tails; by-name, by-type, qualified-slice edges) over palette types with {Init only, AfterPropertiesSet only, both, neither} x {lazy, eager} x {runner, closer, plain}, configuration-bound fields (value / prefix tags supplied per instance), 0..3 additional logging user post-processors of all ordering classes, under permuted orders. One append-only event log per start (logical clock) is written by the components' own AfterPropertiesSet/Init methods, by an observing post-processor (before/after + snapshot of all slots and config fields) and by the logging post-processors; an offline checker decides: per created component exactly one each of before < aps < init < after (for the callbacks it has), all before-callbacks before aps/init and all after-callbacks after; the snapshot taken in before-initialization equals the state at the end of Run (nothing is set later); when Init/AfterPropertiesSet of X runs, every observed dependency Y from which X is not reachable has completed all its callbacks; a LazyInit component has events only if a created component holds it (App holds runners/closers), and never twice. non-trivial = graph with a diamond, or a cycle with a tail, or a needed lazy component; distinct = canonical scenario signature; retry family: a component whose Init / AfterPropertiesSet fails once is requested by a swallowed lookup and again later - every attempt runs the complete callback sequence; a quarter of the starts pre-wire by-name points by hand; mix-in family (points of a package-private embedded struct); unsettable family (a point only the holder itself could satisfy, followed by satisfiable ones) and supplied family (component supplied before instantiation); a post-processor component with points and Init; several lazy candidates of one pointer point; lazy post-processor components held by created components pass the other processors' callbacks; a holder taking its dependency through a tagged embedded interface; lazyPrimary (a lazy Primary among lazy candidates); a factory-aware eager component in the main family; panickingInit family (an Init that panics half way is no completed initialisation); lazyMisfit (an optional point naming a lazy component of an unfit type leaves it untouched); firstProcessor family (priority-ordered post-processor components created before any processor is active are initialised once); lookups under the type name of custom-named components re-run no lifecycle"
 }
 func (c05) Assumptions() []string {
 	return []string{
